@@ -269,6 +269,12 @@ def evalAssign (facts : List String) (r : Regs) (args : List String) : Option Va
         | some d => .ofRes (replaceSubject H e (.encrypted m' d))
         | Option.none => .err "MissingDigest")
     | _ => pure (.err "not-encrypted")
+  | ["foreign_enc", ct, aad] => do
+    let ct ← bytesOfHex ct; let aad ← if aad == "-" then some [] else bytesOfHex aad
+    let m : EncMsg := { ciphertext := ct, nonce := List.replicate 12 9, auth := List.replicate 16 8, aad := aad }
+    pure (match m.optDigest with
+      | some d => .env (.encrypted m d)
+      | Option.none => .err "MissingDigest")
   | ["misdeclare", e, other, k, n] => do
     let e ← r.env e; let other ← r.env other; let k ← bytesOfHex k; let n ← bytesOfHex n
     let m := encryptWithDigest AE k n (encode other) e.digest
